@@ -10,7 +10,7 @@ PROPS=${*:-$PROP}
 WT=/tmp/seedwt_$ID
 git -C /repo worktree remove --force "$WT" >/dev/null 2>&1
 git -C /repo worktree add -q --detach "$WT" HEAD || exit 2
-trap 'git -C /repo worktree remove --force "$WT" >/dev/null 2>&1; rm -f /tmp/demo_$ID.*' EXIT
+trap 'git -C /repo worktree remove --force "$WT" >/dev/null 2>&1; rm -rf /tmp/demo_$ID.* /tmp/seedout_$ID' EXIT
 git -C "$WT" apply "$D/patch.diff" || { echo "SEED $ID: patch does not apply"; exit 2; }
 EIG="-I/usr/include/eigen3 -DBSPLINE_INTERPOLATION_USE_EIGEN"
 X=""; grep -q "pthread\|<thread>" "$D/demo.cpp" && X="-pthread"
@@ -22,7 +22,7 @@ T="skipped"
 if [ "${SEED_SKIP_TESTS:-0}" != 1 ]; then VERIF_REPO=$WT /verif/tools/baseline.sh >/tmp/demo_$ID.tests 2>&1; T=$?; fi
 RES=""
 for p in $PROPS; do
-  VERIF_REPO=$WT /verif/check $p --tier ${SEED_TIER:-quick} >/tmp/demo_$ID.check 2>&1; rc=$?
+  VERIF_OUT=/tmp/seedout_$ID VERIF_REPO=$WT /verif/check $p --tier ${SEED_TIER:-quick} >/tmp/demo_$ID.check 2>&1; rc=$?
   nv=$(grep -c '^VIOLATION' /tmp/demo_$ID.check)
   RES="$RES $p:rc=$rc,viol=$nv"
 done
